@@ -575,7 +575,13 @@ def inv_ts_add(lc):
     me = as_kind(lc.pre.args['self'], Ref()); cron = lc.pre.f('_cron', me)
     st = lc.st; x = Const('x!ja', Val)
     now = st.st.ghost['now_value']
-    return [('table_well_formed', alarms_wf(st, cron)),
+    extra = []
+    if z3.is_store(lc.done):
+        # (preservation only) the clause below, instantiated for the endpoint just visited: a quantifier-free obligation
+        x1 = lc.done.arg(1)
+        extra = [('qf:the_endpoint_just_visited_is_registered_unless_it_is_in_the_past',
+                  Implies(dtkey(dt_date_of(x1)) >= dtkey(dt_date_of(now)), registered(st, cron, dt_time_of(x1), me)))]
+    return extra + [('table_well_formed', alarms_wf(st, cron)),
             ('visited_future_endpoints_are_registered', ForAll([x], Implies(And(lc.done[x], dtkey(dt_date_of(x)) >= dtkey(dt_date_of(now))),
                                                                          registered(st, cron, dt_time_of(x), me)))),
             ('nothing_else_changed', And(st.f('_span', me) == lc.entry.f('_span', me), st.f('_cron', me) == cron, st.st.ghost['phase'] == 0, BoolVal(st.st.ghost['parsed'] and st.st.ghost['clock']),
